@@ -253,6 +253,9 @@ func (ct *ContractTable) parseFile(repo, file string) error {
 				return errf("ghost needs name and sort")
 			}
 			g := &GhostVar{Name: fs[0], Sort: Sort(fs[1])}
+			if srt, ok := specSort(fs[1]); ok {
+				g.Sort = srt
+			}
 			if k := strings.Index(rest, "="); k >= 0 {
 				e, err := ParseSpec(rest[k+1:])
 				if err != nil {
